@@ -62,10 +62,22 @@ ScoringOK(e) ==
   /\ Shape(e)
   /\ \A i \in 1..Len(e.m) : \A k \in 1..e.K :
         ScoreCellOK(e.q[i][k], Fn(e, i, k), Fd(e, i), e.bn, e.bd, k, e.basen, e.based, Bsh(e, k))
+\* -inf cells (a regular symbol with background frequency 0): a wildcard-free window through such a cell scores -inf, so
+\* the reported minimum must be -inf too; the maximum is the sum of the row maxima over the finite cells (-inf when a
+\* row has none)
 MinMaxOK(e) ==
-  LET fin == \A i \in 1..Len(e.q) : \A k \in 1..(e.K - 1) : IsNum(e.q[i][k]) IN
-  fin => /\ Abs(e.min - MinScoreOf(e.q, e.K)) <= Len(e.q) + 1
-         /\ Abs(e.max - MaxScoreOf(e.q, e.K)) <= Len(e.q) + 1
+  LET NK == e.K - 1
+      fin == \A i \in 1..Len(e.q) : \A k \in 1..NK : IsNum(e.q[i][k])
+      someinf == \E i \in 1..Len(e.q) : \E k \in 1..NK : e.q[i][k] = NINF
+      alln == \A i \in 1..Len(e.q) : \A k \in 1..NK : IsNum(e.q[i][k]) \/ e.q[i][k] = NINF
+      deadrow == \E i \in 1..Len(e.q) : \A k \in 1..NK : e.q[i][k] = NINF
+      rowmax(i) == SetMax({e.q[i][k] : k \in {j \in 1..NK : e.q[i][j] # NINF}})
+  IN /\ fin => /\ Abs(e.min - MinScoreOf(e.q, e.K)) <= Len(e.q) + 1
+              /\ Abs(e.max - MaxScoreOf(e.q, e.K)) <= Len(e.q) + 1
+     /\ (alln /\ someinf /\ Len(e.q) > 0) =>
+              /\ e.min = NINF
+              /\ IF deadrow THEN e.max = NINF
+                 ELSE Abs(e.max - PlainSum([i \in 1..Len(e.q) |-> rowmax(i)], Len(e.q))) <= Len(e.q) + 1
 
 Apply(s, e) ==
   IF e.ret = "panic" THEN [ok |-> FALSE, st |-> s, exp |-> [why |-> "panic"]]
